@@ -175,6 +175,18 @@ func validateResponseHeader(headerName string, headerRef *openapi3.HeaderRef, in
 		}
 	}
 
+	if headerRef.Value.Schema == nil {
+		// The header is defined by "content": there is no schema to decode against,
+		// only its presence can be checked.
+		if _, found = input.Header[http.CanonicalHeaderKey(headerName)]; !found && headerRef.Value.Required {
+			return &ResponseError{
+				Input:  input,
+				Reason: fmt.Sprintf("response header %q missing", headerName),
+			}
+		}
+		return nil
+	}
+
 	if decodedValue, found, err = decodeValue(dec, headerName, sm, headerRef.Value.Schema, headerRef.Value.Required); err != nil {
 		return &ResponseError{
 			Input:  input,
